@@ -77,12 +77,22 @@ fn sampled(rng: &mut Rng) -> Scenario {
                     continue;
                 }
                 let a = match rng.int(0, 4) {
-                    0 => Action::Interrupt,
+                    0 if rng.bool(0.5) => Action::Interrupt,
                     1 | 2 => Action::ModIdentity,
                     3 => Action::ModScale(*rng.pick(&[0.5, 2.0])),
                     _ => Action::ModPerturb(rng.sign() * rng.logu(1e-8, 1e-3)),
                 };
                 sc.actions.push((k, a));
+            }
+            if m != Meth::BDF && rng.bool(0.2) {
+                // the solver's own dense output switched off; a callback asks for an interpolant
+                // from some abscissa on (ControlFlag::XOut)
+                sc.low_dense = false;
+                let k = rng.int(0, ncb.saturating_sub(1));
+                if !sc.actions.iter().any(|(kk, _)| *kk == k) {
+                    let xo = sc.x0 + (sc.xend - sc.x0) * rng.f();
+                    sc.actions.push((k, Action::XOut(xo)));
+                }
             }
             sc.actions.sort_by_key(|a| a.0);
         }
